@@ -34,6 +34,8 @@ CallsOf(un) ==
   [name : Single, arg : {"none"}, then : {"none"}]
   \cup [name : {"join"}, arg : {"comma"}, then : {"none"}]
   \cup [name : {"concat"}, arg : {"other", "empty"}, then : {"none"}]
+  \* two applications to the same receiver (also to a filtered copy of it) with different arguments: they must not share storage
+  \cup [name : {"concat"}, arg : {"other"}, then : {"again", "again-compact"}]
   \cup [name : {"sort", "map"}, arg : {"k"}, then : {"none"}]
   \cup [name : {"reverse", "sort", "compact", "uniq"}, arg : {"none"}, then : {"reverse", "compact", "sort", "size", "first", "join"}]
 
@@ -49,7 +51,8 @@ ArgVals == CASE call.arg = "none" -> <<>>
              [] call.arg = "empty" -> <<Arr(<<>>)>>
              [] call.arg = "k" -> <<Str(KK)>>
 R1 == Filter(call.name, Arr(arr), ArgVals)
-R == IF call.then = "none" \/ R1.r # "val" THEN R1 ELSE Filter(call.then, R1.v, <<>>)
+Again == call.then \in {"again", "again-compact"}
+R == IF call.then = "none" \/ Again \/ R1.r # "val" THEN R1 ELSE Filter(call.then, R1.v, <<>>)
 Dec(r) == r.r = "val" /\ ~IsUnspec(r.v)
 F(name, v, args) == Filter(name, v, args)
 
@@ -96,14 +99,25 @@ ElemProbe(x) == IF u = "map"
 Each(coll) == [t |-> "for", tag |-> "for", var |-> X, coll |-> V(coll), body |-> ElemProbe(X)]
 Lit(v) == [t |-> "lit", v |-> v]
 Piped == LET f1 == [t |-> "filter", e |-> V(A), name |-> call.name, args |-> [i \in 1..Len(ArgVals) |-> Lit(ArgVals[i])]]
-         IN  IF call.then = "none" THEN f1 ELSE [t |-> "filter", e |-> f1, name |-> call.then, args |-> <<>>]
-Last == IF call.then = "none" THEN call.name ELSE call.then
+         IN  IF call.then = "none" \/ Again THEN f1 ELSE [t |-> "filter", e |-> f1, name |-> call.then, args |-> <<>>]
+Last == IF call.then = "none" \/ Again THEN call.name ELSE call.then
 Scalar == Last \in {"size", "join"}
 OneElem == Last \in {"first", "last"}
 \* mapslice: a loop over the binding would see [key, value] pairs, so the input is shown through join
 After(rep) == IF rep = "msvalues" THEN <<Ob([t |-> "filter", e |-> V(A), name |-> "join", args |-> <<Lit(Str(<<44>>))>>])>>
               ELSE <<Each(A)>>
+\* p = base | concat: [9]   q = base | concat: [8]   print p, q   (base: a, or a | compact)
+AgainProg(rep) ==
+  LET base == IF call.then = "again-compact" THEN [t |-> "filter", e |-> V(A), name |-> "compact", args |-> <<>>] ELSE V(A)
+      BB == <<98>>
+      cat(x) == [t |-> "filter", e |-> V(BB), name |-> "concat", args |-> <<Lit(Arr(<<IntV(x)>>))>>]
+      show(n) == [t |-> "for", tag |-> "for", var |-> X, coll |-> V(n), body |-> ElemProbe(X)]
+  IN  <<[t |-> "assign", name |-> BB, e |-> base], [t |-> "assign", name |-> <<112>>, e |-> cat(9)], [t |-> "assign", name |-> <<113>>, e |-> cat(8)],
+        show(<<112>>), T(<<124>>), show(<<113>>), T(<<124>>)>>
+      \* (a loop over an ordered-map binding would see [key, value] pairs: there the input is shown through join only)
+      \o (IF rep = "msvalues" /\ call.then = "again" THEN <<>> ELSE <<show(BB)>>) \o <<T(<<35>>)>> \o After(rep)
 Prog(rep) ==
+  IF Again THEN AgainProg(rep) ELSE
   (IF Scalar THEN <<Ob(Piped)>>
    ELSE IF OneElem THEN <<[t |-> "assign", name |-> RR, e |-> Piped]>> \o ElemProbe(RR)
    ELSE <<[t |-> "assign", name |-> RR, e |-> Piped], Each(RR)>>)
